@@ -30,7 +30,7 @@ RULE = ('one evaluation = one simulated run of a sampled full-API workload (1 cl
         'operation in the thorough tier and sampled in the quick tier; non-trivial = a fault fired or clients interleaved; '
         'distinct = SHA-256 of the seam event log')
 ASSUMPTIONS = ['one failure per run (fault pairs are not explored)', 'if the injected failure is the unlink itself, that one file may remain (stated allowance)']
-PROBES = ('sqlerr', 'oserr', 'commit_failed', 'unencodable', 'stream_error', 'timeout_seen', 'evicted', 'block_aborted')
+PROBES = ('sqlerr', 'oserr', 'commit_failed', 'unencodable', 'stream_error', 'timeout_seen', 'block_aborted')
 TECHNIQUE = 'deterministic simulation with single-fault enumeration: n-th statement / n-th file call failure over all n of sampled workloads; independent directory auditor + check() at quiescence'
 LEVEL_TEXT = ('fault enumeration: workloads are sampled by seed; within a workload the single failure point is enumerated over all SQL '
               'statements and file-system calls of every operation (thorough tier), so for that workload the single-fault quantifier is '
